@@ -452,6 +452,223 @@ def truthT : Val → Except Err Bool
   | .bool b => .ok b
   | _ => .error .runtime
 
+/-! ## primitives of the aggregation / regression / ranking kernels (C07, C08) -/
+
+def xsign : XQ → XQ
+  | .val a => .val (if a < 0 then -1 else if a = 0 then 0 else 1)
+  | .nan => .nan | .pinf => .val 1 | .ninf => .val (-1)
+
+/-- `x.clamp(min=lo)` (NaN stays NaN) -/
+def xclampMin (lo x : XQ) : XQ := if xlt x lo then lo else x
+
+/-- `torch.trapz(y, x)` of one row: `Σ (x[i+1] − x[i])·(y[i] + y[i+1]) / 2` -/
+def xtrapz : List XQ → List XQ → XQ
+  | x0 :: x1 :: xs, y0 :: y1 :: ys =>
+    xadd (xdivX (xmul (xsub x1 x0) (xadd y0 y1)) (.val 2)) (xtrapz (x1 :: xs) (y1 :: ys))
+  | _, _ => .val 0
+
+/-- `torch.trapz(y, x)` along the last dimension, equal shapes (a mismatch that torch would broadcast is outside
+    the model: `RuntimeError`). -/
+def trapzV : Val → Val → Except Err Val
+  | .vec y, .vec x => if y.length = x.length then .ok (.scalar (xtrapz x y)) else .error .runtime
+  | .mat y, .mat x =>
+    if y.length = x.length && (List.zipWith (fun (a b : List XQ) => a.length == b.length) y x).all id then
+      .ok (.vec (List.zipWith xtrapz x y))
+    else .error .runtime
+  | _, _ => .error .runtime
+
+/-- `.sum(dim=0)`: a `(0, C)` matrix is `mat []`, its column count is not recorded (result `vec []`). -/
+def sumDim0V : Val → Except Err Val
+  | .scalar x => .ok (.scalar x)
+  | .vec l => .ok (.scalar (xsum l))
+  | .mat r => .ok (.vec ((List.range (r.headD []).length).map fun j => xsum (r.map fun row => row.getD j (.val 0))))
+  | _ => .error .type
+
+/-- `.squeeze()` -/
+def squeezeV : Val → Except Err Val
+  | .scalar x => .ok (.scalar x)
+  | .vec l => .ok (if l.length = 1 then .scalar (l.headD (.val 0)) else .vec l)
+  | .mat rows =>
+    .ok (if rows.length = 1 then
+        (if (rows.headD []).length = 1 then .scalar ((rows.headD []).headD (.val 0)) else .vec (rows.headD []))
+      else if rows.all (fun r => r.length == 1) then .vec (rows.map fun r => r.headD (.val 0))
+      else .mat rows)
+  | _ => .error .type
+
+/-- `.unsqueeze(0)` / `.view(1, -1)` of a 1-d tensor -/
+def unsqueeze0V : Val → Except Err Val
+  | .scalar x => .ok (.vec [x])
+  | .vec l => .ok (.mat [l])
+  | _ => .error .other
+
+/-- `x.size(-1)` -/
+def sizeLastV : Val → Except Err Val
+  | .vec l => .ok (.int l.length) | .mat r => .ok (.int (r.headD []).length)
+  | .scalar _ => .error .index | _ => .error .type
+
+def shapeOf : Val → Except Err (List Nat)
+  | .scalar _ => .ok [] | .vec l => .ok [l.length] | .mat r => .ok [r.length, (r.headD []).length]
+  | _ => .error .other
+
+/-- `a.size() == b.size()` -/
+def sameSizeV (a b : Val) : Except Err Val := do
+  let x ← shapeOf a
+  let y ← shapeOf b
+  pure (.bool (x == y))
+
+def isFloatV : Val → Val
+  | .num _ => .bool true | _ => .bool false
+
+def isTensorV : Val → Val
+  | .scalar _ => .bool true | .vec _ => .bool true | .mat _ => .bool true | _ => .bool false
+
+def isNoneV : Val → Val
+  | .none => .bool true | _ => .bool false
+
+/-- Python `<`, `<=`, … on numbers (`None` operand: `TypeError`). -/
+def pyCmpV (op : CmpOp) : Val → Val → Except Err Val
+  | .none, _ => .error .type
+  | _, .none => .error .type
+  | a, b => do
+    let x ← a.asElem
+    let y ← b.asElem
+    pure (.bool (xcmp op x y))
+
+def fstV : Val → Except Err Val
+  | .pair a _ => .ok a | _ => .error .other
+
+def sndV : Val → Except Err Val
+  | .pair _ b => .ok b | _ => .error .other
+
+/-- `a[mask] = v` (same shapes; `v` a Python number) -/
+def maskedFillV (a m v : Val) : Except Err Val := do
+  let x ← v.asElem
+  let sa ← shapeOf a
+  let sm ← shapeOf m
+  if sa == sm then bop (fun p q => if xtruthy q then x else p) a m else .error .index
+
+/-- `x.repeat_interleave(n, dim=0)` of a 2-d tensor -/
+def repeatRowsV : Val → Val → Except Err Val
+  | .mat r, .int n => if 0 ≤ n then .ok (.mat (r.flatMap fun row => List.replicate n.toNat row)) else .error .runtime
+  | _, _ => .error .other
+
+/-- `.view(-1)` -/
+def flattenV : Val → Except Err Val
+  | .scalar x => .ok (.vec [x]) | .vec l => .ok (.vec l) | .mat r => .ok (.vec r.flatten)
+  | _ => .error .type
+
+/-- `≤` on elements (NaN is outside the model: torch sorts NaN last). -/
+def xle (a b : XQ) : Bool := xlt a b || xeq a b
+
+/-- insert before the first element that is not smaller (keeps equal keys in arrival order) -/
+def xinsertBy (a : XQ × Nat) : List (XQ × Nat) → List (XQ × Nat)
+  | [] => [a]
+  | b :: l => if xle a.1 b.1 then a :: b :: l else b :: xinsertBy a l
+
+/-- stable ascending insertion sort of (value, source index) pairs -/
+def xisort : List (XQ × Nat) → List (XQ × Nat)
+  | [] => []
+  | a :: l => xinsertBy a (xisort l)
+
+/-- `torch.sort(x, stable=True)` of one row: sorted values paired with their source indices -/
+def xargsortStable (l : List XQ) : List (XQ × Nat) := xisort (l.zip (List.range l.length))
+
+/-- `torch.sort(x, dim=-1, stable=True)`: the pair (values, indices) -/
+def sortStableV : Val → Except Err Val
+  | .vec l => let s := xargsortStable l; .ok (.pair (.vec (s.map (·.1))) (.vec (s.map fun p => .val ((p.2 : Nat) : Q))))
+  | .mat r =>
+    let s := r.map xargsortStable
+    .ok (.pair (.mat (s.map fun row => row.map (·.1))) (.mat (s.map fun row => row.map fun p => .val ((p.2 : Nat) : Q))))
+  | .scalar _ => .error .index
+  | _ => .error .type
+
+/-! ## primitives of the curve kernels (C05) -/
+
+/-- `input.sort(descending=True)` of one row: merge sort (stable) by non-increasing value, with source indices.  torch
+    leaves the order of tied scores unspecified; the kernels' results do not depend on it (TE/Props/C05). -/
+def xargsortDesc (l : List XQ) : List (XQ × Nat) :=
+  (l.zip (List.range l.length)).mergeSort fun x y => xle y.1 x.1
+
+def sortDescV : Val → Except Err Val
+  | .vec l => let s := xargsortDesc l; .ok (.pair (.vec (s.map (·.1))) (.vec (s.map fun p => .val ((p.2 : Nat) : Q))))
+  | .scalar _ => .error .index
+  | _ => .error .other
+
+/-- `torch.diff` of one row -/
+def xdiff : List XQ → List XQ
+  | a :: b :: l => xsub b a :: xdiff (b :: l)
+  | _ => []
+
+def xcumsumFrom (acc : XQ) : List XQ → List XQ
+  | [] => []
+  | x :: xs => xadd acc x :: xcumsumFrom (xadd acc x) xs
+
+/-- 1-d tensor operations -/
+def vecOp (f : List XQ → List XQ) : Val → Except Err Val
+  | .vec l => .ok (.vec (f l))
+  | _ => .error .other
+
+/-- `x[0]` / `x[-1]` of a 1-d tensor (`IndexError` when empty) -/
+def firstV : Val → Except Err Val
+  | .vec (x :: _) => .ok (.scalar x)
+  | _ => .error .index
+
+def lastV : Val → Except Err Val
+  | .vec l => match l.getLast? with | some x => .ok (.scalar x) | none => .error .index
+  | _ => .error .index
+
+/-- `torch.cat([a, b])` of 1-d tensors -/
+def catV : Val → Val → Except Err Val
+  | .vec a, .vec b => .ok (.vec (a ++ b))
+  | _, _ => .error .runtime
+
+/-- `t.new_ones(n)` / `t.new_zeros(n)` / `torch.full` -/
+def fullV (n v : Val) : Except Err Val := do
+  let k ← sizeOf? n
+  let x ← v.asElem
+  pure (.vec (List.replicate k x))
+
+/-- `torch.nan_to_num(x, v)` -/
+def xnanTo (v : XQ) : XQ → XQ
+  | .nan => v | x => x
+
+/-- `torch.arange(n, 0, -1)` -/
+def arangeDownV : Val → Except Err Val
+  | .int n => if 0 ≤ n then .ok (.vec ((List.range n.toNat).map fun i => .val (((n.toNat - i : Nat) : Nat) : Q))) else .error .runtime
+  | _ => .error .type
+
+def zerosLikeV : Val → Except Err Val
+  | .scalar _ => .ok (.scalar (.val 0))
+  | .vec l => .ok (.vec (l.map fun _ => .val 0))
+  | .mat r => .ok (.mat (r.map fun row => row.map fun _ => .val 0))
+  | _ => .error .type
+
+/-- `a.masked_scatter_(mask, src)` on one row: the positions where `mask` holds take the elements of `src` in order
+    (`RuntimeError` when `src` has too few) -/
+def xmaskedScatter : List XQ → List XQ → List XQ → Except Err (List XQ)
+  | [], _, _ => .ok []
+  | a :: as, m :: ms, src =>
+    if xtruthy m then
+      match src with
+      | [] => .error .runtime
+      | s :: ss => (xmaskedScatter as ms ss).map (s :: ·)
+    else (xmaskedScatter as ms src).map (a :: ·)
+  | _ :: _, [], _ => .error .runtime
+
+def maskedScatterV : Val → Val → Val → Except Err Val
+  | .vec a, .vec m, .vec src => if a.length = m.length then (xmaskedScatter a m src).map .vec else .error .runtime
+  | _, _, _ => .error .other
+
+/-- `torch.where(c, x, b)` with a Python number `x` and a tensor `b` -/
+def whereTV (c a b : Val) : Except Err Val := do
+  let x ← a.asElem
+  bop (fun m y => if xtruthy m then x else y) c b
+
+/-- inside a TorchScript function an out-of-range index is a `RuntimeError` -/
+def scriptedE : Except Err Val → Except Err Val
+  | .error .index => .error .runtime
+  | r => r
+
 /-! ## expressions -/
 
 inductive TExpr where
@@ -479,6 +696,30 @@ inductive TExpr where
   | cooDense (r c v n m : TExpr)
   | l1norm (a dim : TExpr)
   | pair (a b : TExpr)
+  -- aggregation / regression / ranking kernels (C07, C08)
+  | isFloat (a : TExpr) | isTensor (a : TExpr) | isNone (a : TExpr)
+  | sameSize (a b : TExpr)
+  | pyCmp (op : CmpOp) (a b : TExpr)                          -- Python numbers
+  | raise_ (e : Err)
+  | fst (a : TExpr) | snd (a : TExpr)
+  | sumDim0 (a : TExpr) | squeeze (a : TExpr) | unsqueeze0 (a : TExpr) | sizeLast (a : TExpr)
+  | sign (a : TExpr) | abs (a : TExpr) | clampMin (a lo : TExpr)
+  | emptyVec
+  | trapz (y x : TExpr)
+  | maskedFill (a m v : TExpr)
+  | repeatRows (a n : TExpr) | flatten (a : TExpr)
+  | ufun (name : String) (a : TExpr)                           -- uninterpreted function (`log10`): no value
+  | unsupported (reason : String)                              -- a branch outside the grammar (partial kernels)
+  | sortStable (a : TExpr)                                     -- `torch.sort(a, dim=-1, stable=True)`: (values, indices)
+  -- curve kernels (C05)
+  | sortDesc (a : TExpr)                                       -- `a.sort(descending=True)` of a 1-d tensor: (values, indices)
+  | diff (a : TExpr) | cumsum (a : TExpr) | flip (a : TExpr) | dropFirst (a : TExpr) | dropLast (a : TExpr)   -- 1-d
+  | padRight (a v : TExpr)                                     -- `F.pad(a, [0, 1], value=v)`
+  | first (a : TExpr) | last (a : TExpr)
+  | cat (a b : TExpr) | full (n v : TExpr)
+  | nanToNumTo (a v : TExpr) | neg (a : TExpr)
+  | scripted (body : TExpr)                                    -- body of a `@torch.jit.script` function that indexes
+  | arangeDown (n : TExpr) | zerosLike (a : TExpr) | maskedScatter (a m src : TExpr) | whereT (c a b : TExpr)
 deriving Repr, Inhabited
 
 /-- bitwise and of two non-negative integer elements (negative integers and non-integers are outside the
@@ -550,6 +791,48 @@ def eval (env : Env) : TExpr → Except Err Val
     cooDenseV r c v n m
   | .l1norm a d => do let x ← eval env a; let y ← eval env d; l1normV x y
   | .pair a b => do let x ← eval env a; let y ← eval env b; pure (.pair x y)
+  | .isFloat a => do let x ← eval env a; pure (isFloatV x)
+  | .isTensor a => do let x ← eval env a; pure (isTensorV x)
+  | .isNone a => do let x ← eval env a; pure (isNoneV x)
+  | .sameSize a b => do let x ← eval env a; let y ← eval env b; sameSizeV x y
+  | .pyCmp op a b => do let x ← eval env a; let y ← eval env b; pyCmpV op x y
+  | .raise_ e => .error e
+  | .fst a => do let x ← eval env a; fstV x
+  | .snd a => do let x ← eval env a; sndV x
+  | .sumDim0 a => do let x ← eval env a; sumDim0V x
+  | .squeeze a => do let x ← eval env a; squeezeV x
+  | .unsqueeze0 a => do let x ← eval env a; unsqueeze0V x
+  | .sizeLast a => do let x ← eval env a; sizeLastV x
+  | .sign a => do let x ← eval env a; uop xsign x
+  | .abs a => do let x ← eval env a; uop xabs x
+  | .clampMin a lo => do let x ← eval env a; let y ← eval env lo; let l ← y.asElem; uop (xclampMin l) x
+  | .emptyVec => .ok (.vec [])
+  | .trapz y x => do let a ← eval env y; let b ← eval env x; trapzV a b
+  | .maskedFill a m v => do let x ← eval env a; let y ← eval env m; let z ← eval env v; maskedFillV x y z
+  | .repeatRows a n => do let x ← eval env a; let y ← eval env n; repeatRowsV x y
+  | .flatten a => do let x ← eval env a; flattenV x
+  | .ufun _ a => do let _ ← eval env a; .error .notImpl
+  | .unsupported _ => .error .notImpl
+  | .sortStable a => do let x ← eval env a; sortStableV x
+  | .sortDesc a => do let x ← eval env a; sortDescV x
+  | .diff a => do let x ← eval env a; vecOp xdiff x
+  | .cumsum a => do let x ← eval env a; vecOp (xcumsumFrom (.val 0)) x
+  | .flip a => do let x ← eval env a; vecOp List.reverse x
+  | .dropFirst a => do let x ← eval env a; vecOp (List.drop 1) x
+  | .dropLast a => do let x ← eval env a; vecOp List.dropLast x
+  | .padRight a v => do let x ← eval env a; let y ← eval env v; let e ← y.asElem; vecOp (· ++ [e]) x
+  | .first a => do let x ← eval env a; firstV x
+  | .last a => do let x ← eval env a; lastV x
+  | .cat a b => do let x ← eval env a; let y ← eval env b; catV x y
+  | .full n v => do let x ← eval env n; let y ← eval env v; fullV x y
+  | .nanToNumTo a v => do let x ← eval env a; let y ← eval env v; let e ← y.asElem; uop (xnanTo e) x
+  | .neg a => do let x ← eval env a; uop xneg x
+  | .scripted b => scriptedE (eval env b)
+  | .arangeDown n => do let x ← eval env n; arangeDownV x
+  | .zerosLike a => do let x ← eval env a; zerosLikeV x
+  | .maskedScatter a m src => do
+    let x ← eval env a; let y ← eval env m; let z ← eval env src; maskedScatterV x y z
+  | .whereT c a b => do let x ← eval env c; let y ← eval env a; let z ← eval env b; whereTV x y z
 
 /-! ## kernel table -/
 
